@@ -600,10 +600,13 @@ class FormatParser(object):
     def getInt(self):
         i = 0
         setI = False
+        digits = 0
         c = self.getChar()
         # Only ASCII digits: str.isdigit() also accepts digits that are not
         # part of a color code, some of which (eg. '\xb2') int() rejects.
-        while c and c in '0123456789':
+        # And at most two of them, like IRC clients (and stripColor): a
+        # third digit is text.
+        while c and c in '0123456789' and digits < 2:
             j = i * 10
             j += int(c)
             if j >= 16:
@@ -612,6 +615,7 @@ class FormatParser(object):
             else:
                 setI = True
                 i = j
+                digits += 1
                 c = self.getChar()
         self.ungetChar(c)
         if setI:
